@@ -7,8 +7,11 @@ package gosym
 // uninterpreted functions of their inputs.
 
 import (
+	"crypto/sha256"
 	"fmt"
 	"go/types"
+
+	"golang.org/x/crypto/sha3"
 )
 
 func addrArray(b []byte) array {
@@ -56,6 +59,28 @@ func registerCrypto(e *Engine) {
 	})
 	_ = fmt.Sprint
 	_ = types.Typ
+
+	// ---- hashes over concrete bytes are computed natively
+	sum256 := func(fr *frame, a []value) value {
+		h := sha256.Sum256(byteSlice(a[0], "sha256"))
+		return addrArray(h[:])
+	}
+	e.Register("crypto/sha256.Sum256", sum256)
+	e.Register("github.com/tendermint/tendermint/crypto/tmhash.Sum", func(fr *frame, a []value) value {
+		h := sha256.Sum256(byteSlice(a[0], "tmhash.Sum"))
+		return concreteBytes(h[:])
+	})
+	e.Register("github.com/tendermint/tendermint/crypto/tmhash.SumTruncated", func(fr *frame, a []value) value {
+		h := sha256.Sum256(byteSlice(a[0], "tmhash.SumTruncated"))
+		return concreteBytes(h[:20])
+	})
+	e.Register(e.ModulePath+"/crypto.Keccak256", func(fr *frame, a []value) value {
+		d := sha3.NewLegacyKeccak256()
+		for _, part := range a[0].([]value) {
+			d.Write(byteSlice(part, "Keccak256"))
+		}
+		return concreteBytes(d.Sum(nil))
+	})
 
 	// ---- bancor formulas as uninterpreted functions under the contract that
 	// the C12 harnesses establish for formula.go (modulo math.Pow):
